@@ -25,6 +25,15 @@ SCALARS = [
     ("openN1InfProbeExp", "details/HashBucketOpenN1.h", r"static const uint8_t infProbeExp = (\d+);", ""),
     ("openN1EmptyShortHash", "details/HashBucketOpenN1.h", r"static const uint8_t emptyShortHash = (\d+);", ""),
     ("openN1MantMask", "details/HashBucketOpenN1.h", r"return \(size_t\{maxProbeExp\} & (\d+)\) << \(maxProbeExp >> 3\);", "pvGetMaxProbe mantissa mask"),
+    # ---- C13 / C01: byte-level OpenN1 / Open8 buckets (Momo.OpenB)
+    ("openN1ShortHashBits", "details/HashBucketOpenN1.h", r"static_cast<uint32_t>\(hashCode >> \(sizeof\(size_t\) \* 8 - (\d+)\)\)", "ptCalcShortHash: hashCode24 = top this many bits of the hash code"),
+    ("openN1ShortHashShift", "details/HashBucketOpenN1.h", r"\(hashCode24 \* uint32_t\{emptyShortHash\}\) >> (\d+)\)", "ptCalcShortHash: (hashCode24 * emptyShortHash) >> this"),
+    ("openN1MaxCountLimit", "details/HashBucketOpenN1.h", r"MOMO_STATIC_ASSERT\(0 < maxCount && maxCount < (\d+)\);", "BucketOpenN1: 0 < maxCount < this"),
+    ("open8MaxCount", "details/HashBucketOpen8.h", r"class BucketOpen8 : public BucketOpenN1<TItemTraits, (\d+), false>", "BucketOpen8 = BucketOpenN1<., this, false> with a word-wide Find"),
+    ("open8SwarOnes", "details/HashBucketOpen8.h", r"uint64_t xorHashes = \(shortHash \* (0x[0-9a-fA-F]+)ull\) \^ thisShortHashes;", "Find (no SSE2): broadcast multiplier"),
+    ("open8SwarOnesSub", "details/HashBucketOpen8.h", r"uint64_t mask = \(xorHashes - (0x[0-9a-fA-F]+)ull\) & ~xorHashes &", "Find (no SSE2): zero-byte test subtrahend"),
+    ("open8SwarHigh", "details/HashBucketOpen8.h", r"& ~xorHashes & (0x[0-9a-fA-F]+)ull;", "Find (no SSE2): lane flag bits (lane 7 = maxProbeExp excluded)"),
+    ("open8SwarIndexShift", "details/HashBucketOpen8.h", r"size_t index = static_cast<size_t>\(MOMO_CTZ64\(mask\)\) >> (\d+);", "Find (no SSE2): lane index = ctz(mask) >> this"),
     ("logStartBucketCount", "details/BucketUtility.h", r"static const size_t logStartBucketCount = (\d+);", ""),
     # ---- C16: UIntMath::Log2 (de Bruijn) and SegmentedArraySettings index arithmetic
     ("log2Mul64", "Utility.h", r"return tab64\[\(value \* UInt\{(0x[0-9A-Fa-f]+)\}\) >> \d+\];", "pvLog2 (8-byte UInt): de Bruijn multiplier"),
@@ -152,6 +161,17 @@ SHAPES = [
     ("body", "tableAllocRawShape", "DataTable.h", r"Raw\* pvAllocateRaw\(\)",
      "if (mCrew.GetFreeRaws() != nullptr) pvDeallocateFreeRaws(); return mRawMemPool.template Allocate<Raw>();",
      "pvAllocateRaw: atomic load of the head, take-all when non-null, then pool.Allocate"),
+    # ---- C13: BucketOpen8::Find, SSE2 branch (intrinsics; the model `OpenB.sseMask` / `sseLoop` mirrors these statements)
+    ("count", "open8SseMaskShape", "details/HashBucketOpen8.h",
+     r"__m128i shortHashes = _mm_set1_epi8\(static_cast<char>\(shortHash\)\);\s*__m128i thisShortHashes = _mm_set_epi64x\(int64_t\{0\},\s*"
+     r"MemCopyer::FromBuffer<int64_t>\(BucketOpenN1::ptGetData\(\)\)\);\s*int mask = _mm_movemask_epi8\(_mm_cmpeq_epi8\(shortHashes, thisShortHashes\)\);\s*"
+     r"mask &= \(1 << maxCount\) - 1;", 1, "Find (SSE2): broadcast, 8-byte load into the low half, byte compare + movemask, restriction to the maxCount item lanes"),
+    ("count", "open8SseLoopShape", "details/HashBucketOpen8.h",
+     r"for \(; mask != 0; mask &= mask - 1\)\s*\{\s*size_t index = pvCountTrailingZeros15\(static_cast<uint32_t>\(mask\)\);\s*"
+     r"Item\* itemPtr = BucketOpenN1::ptGetItemPtr\(index\);\s*if \(itemPred\(\*itemPtr\)\)\s*return itemPtr;\s*\}", 1,
+     "Find (SSE2): candidates in ascending bit order, first accepted one returned"),
+    ("count", "open8Ctz15Shape", "details/HashBucketOpen8.h",
+     r"#ifdef MOMO_CTZ32\s*return static_cast<size_t>\(MOMO_CTZ32\(mask\)\);\s*#else", 1, "pvCountTrailingZeros15: MOMO_CTZ32 when available, else the table"),
     ("count", "rowFreeRawsAtomicTypedef", "DataRow.h", r"typedef std::atomic<void\*> FreeRaws;", 1, "DataRow::FreeRaws is std::atomic<void*>"),
     ("count", "tableFreeRawsAtomicTypedef", "DataTable.h", r"typedef std::atomic<void\*> FreeRaws;", 1, "DataTable::FreeRaws is std::atomic<void*>"),
     ("count", "rowExplicitMemoryOrders", "DataRow.h", r"memory_order", 0, "no explicit (weaker) memory order in DataRow.h"),
@@ -162,6 +182,32 @@ SHAPES = [
     ("count", "paPoccaFalse", "stdish/pool_allocator.h", r"typedef std::false_type propagate_on_container_copy_assignment;", 1, "pool allocator: propagate_on_container_copy_assignment is false_type (copy assignment keeps the target's pool)"),
     ("count", "paPocmaTrue", "stdish/pool_allocator.h", r"typedef std::true_type propagate_on_container_move_assignment;", 1, "pool allocator: propagate_on_container_move_assignment is true_type (move assignment carries the pool)"),
     ("count", "paPocsTrue", "stdish/pool_allocator.h", r"typedef std::true_type propagate_on_container_swap;", 1, "pool allocator: propagate_on_container_swap is true_type (swap exchanges the pools)"),
+    # ---- C20: no other declaration of a propagation trait, is_always_equal left to std::allocator_traits (is_empty = false: one data member)
+    ("count", "paPropagateTypedefs", "stdish/pool_allocator.h", r"propagate_on_container_\w+", 3, "pool allocator: exactly the three propagation typedefs above, no second declaration"),
+    ("count", "paIsAlwaysEqualDecls", "stdish/pool_allocator.h", r"is_always_equal", 0, "pool allocator: is_always_equal is not declared (allocator_traits takes is_empty<Alloc>)"),
+    ("count", "paSharedPtrMember", "stdish/pool_allocator.h", r"std::shared_ptr<MemPool> mMemPool;", 1, "pool allocator: one data member, the shared_ptr to the pool (the class is not empty, so is_always_equal is false_type)"),
+    # ---- C20: the bodies the model `PoolAlloc` / `PoolAllocFault` mirrors statement by statement (allocate / deallocate decision logic)
+    ("body", "paAllocateShape", "stdish/pool_allocator.h", r"MOMO_NODISCARD pointer allocate\(size_type count\)",
+     "if (count == 1) { MemPoolParams memPoolParams = pvGetMemPoolParams(); bool equal = pvIsEqual(memPoolParams, mMemPool->GetParams()); "
+     "if (!equal && mMemPool->GetAllocateCount() == 0) { *mMemPool = MemPool(memPoolParams, MemManager(get_base_allocator())); equal = true; } "
+     "if (equal) return mMemPool->template Allocate<value_type>(); } "
+     "return MemManagerProxy::template Allocate<value_type>(mMemPool->GetMemManager(), count * sizeof(value_type));",
+     "allocate: count == 1 and (parameters equal, or pool idle -> replaced by a fresh pool) -> MemPool::Allocate, else the memory manager"),
+    ("body", "paDeallocateShape", "stdish/pool_allocator.h", r"void deallocate\(pointer ptr, size_type count\) noexcept",
+     "if (count == 1 && pvIsEqual(pvGetMemPoolParams(), mMemPool->GetParams())) return mMemPool->Deallocate(ptr); "
+     "MemManagerProxy::Deallocate(mMemPool->GetMemManager(), ptr, count * sizeof(value_type));",
+     "deallocate: count == 1 and parameters equal -> MemPool::Deallocate, else the memory manager"),
+    ("body", "paGetParamsShape", "stdish/pool_allocator.h", r"static MemPoolParams pvGetMemPoolParams\(\) noexcept",
+     "return MemPoolParams(sizeof(value_type), internal::ObjectAlignmenter<value_type>::alignment);",
+     "pvGetMemPoolParams: (sizeof, ObjectAlignmenter::alignment) through the MemPoolParams constructor"),
+    ("body", "paIsEqualShape", "stdish/pool_allocator.h", r"static bool pvIsEqual\(const MemPoolParams& memPoolParams1,\s*const MemPoolParams& memPoolParams2\) noexcept",
+     "return memPoolParams1.GetBlockSize() == memPoolParams2.GetBlockSize() && memPoolParams1.GetBlockAlignment() == memPoolParams2.GetBlockAlignment();",
+     "pvIsEqual: block size and block alignment, nothing else"),
+    ("body", "paSelectOnCopyShape", "stdish/pool_allocator.h", r"unsynchronized_pool_allocator select_on_container_copy_construction\(\) const(?: noexcept)?",
+     "return unsynchronized_pool_allocator(get_base_allocator());",
+     "select_on_container_copy_construction: a new allocator object with a pool of its own"),
+    ("count", "paObjAlignmentClamp", "ObjectManager.h", r"static const size_t alignment = \(alignof\(Object\) < UIntConst::maxAlignment\)\s*\? alignof\(Object\) : UIntConst::maxAlignment;", 1,
+     "ObjectAlignmenter::alignment = min(alignof(Object), UIntConst::maxAlignment): over-aligned types are clamped"),
     # ---- C15: version table - the VersionKeeper checks and every version-increment / version-check site the model `Ver` mirrors
     ("body", "verKeeperCheckShape", "IteratorUtility.h", r"void Check\(\) const",
      "MOMO_CHECK(mContainerVersion != nullptr && *mContainerVersion == mVersion);",
